@@ -523,6 +523,28 @@ class C19(Property):
             t += "c" + rng.choice(DIGITS)
         return t
 
+    def rand_alpha(self, rng):
+        """what follows the `#`: nothing / `#` / a threshold / a colour — thresholds and colours made of decimal
+        digits only sit next to each other, since only the leading `.` and the length tell them apart"""
+        r = rng.random()
+        if r < 0.15:
+            return ""
+        if r < 0.25:
+            return "#"
+        if r < 0.55:  # thresholds
+            return "." + rng.choice(["5", "0", "123456", "999", "1568627450980392", "000000", "102030",
+                                     "".join(rng.choice(DIGITS) for _ in range(rng.choice([1, 2, 3, 6, 6, 8, 17, 25])))])
+        q = rng.random()
+        if q < 0.4:  # colours whose six hex digits are all decimal digits
+            return rng.choice(["102030", "000000", "999999", "123456", "".join(rng.choice(DIGITS) for _ in range(6))])
+        if q < 0.6:  # mixed case, at least one letter
+            c = [rng.choice(HEXD) for _ in range(6)]
+            c[rng.randrange(6)] = rng.choice("abcdefABCDEF")
+            return "".join(c)
+        if q < 0.85:
+            return "".join(rng.choice(HEXD) for _ in range(6))
+        return "".join(rng.choice(HEXD if rng.random() < 0.5 else DIGITS) for _ in range(rng.choice([5, 7, 1, 3])))  # wrong length
+
     def rand_sentence(self, rng, style, small=False):
         s = ""
         if rng.random() < 0.5:
@@ -537,8 +559,7 @@ class C19(Property):
             if r > 0.3 or rng.random() < 0.1:
                 s += rng.choice(["0", "1", "3", "28", "30", "31", "007"] + ([] if small else [str(rng.randrange(10 ** 9))]))
         if rng.random() < 0.5:
-            s += "#" + rng.choice(["", "", "#", "." + "".join(rng.choice(DIGITS) for _ in range(rng.choice([1, 2, 3, 8, 17, 25]))),
-                                   "".join(rng.choice(HEXD) for _ in range(rng.choice([6, 6, 6, 5, 7]))), ".0", ".999", ".1568627450980392"])
+            s += "#" + self.rand_alpha(rng)
         if rng.random() < (0.15 if style == "block" else 0.6):
             s += "+" + self.rand_style(rng, style)
         return s
@@ -644,7 +665,10 @@ class C19(Property):
         # the D3 family and the repo's own literals, always
         fixed = [".##", "<.##", ".+L", ".##+L", "5.#+W", ".", "1.", ".#", ".#.5", ".#ffffff", "+", "20+", ".^+", "#+",
                  "#.", "#.99999999999999999", "#.1568627450980392", "|200.^70#ffffff", "1.1#", "+z-2147483648",
-                 "+z2147483647", "+z-2147483647", "+z2147483648", "+Wz1m1c9", "+Am1c0", "+L\n", "+\n", "\n", "1\n"]
+                 "+z2147483647", "+z-2147483647", "+z2147483648", "+Wz1m1c9", "+Am1c0", "+L\n", "+\n", "\n", "1\n",
+                 # colours of decimal digits only next to thresholds
+                 "#102030", "#000000", "#999999", "#123456", "<5.^2#102030", "#.5", "#.0", "#.123456", "#.102030",
+                 "#12345a", "#A0b1C2", "#a0B1c2", "##", "#12345", "#1234567", "#.", "#1.5", "#102030+L"]
         for s in fixed:
             for style in CLASSES:
                 yield self.single("check", style, s, kind="fixed")
